@@ -11,9 +11,9 @@ namespace Thr2Aio
 
 theorem step_none_of_not_act (c : Cfg) (s : St) (a : Nat) (h : a ∉ acts) : step c s a = none := by
   simp only [acts, List.mem_cons, List.not_mem_nil, or_false, not_or] at h
-  obtain ⟨h0, h1, h2, h3⟩ := h
-  match a, h0, h1, h2, h3 with
-  | a + 4, _, _, _, _ => simp [step, stepL]
+  obtain ⟨h0, h1, h2, h3, h4⟩ := h
+  match a, h0, h1, h2, h3, h4 with
+  | a + 5, _, _, _, _, _ => simp [step, stepL]
 
 theorem closed_step (c : Cfg) (R : List St) (h : Closed c R = true) (s : St) (hs : s ∈ R) (a : Nat) :
     (step c s a).getD s ∈ R := by
@@ -46,6 +46,13 @@ theorem userStep_started (c : Cfg) (s t : St) (l : String) (h : userStep c s = s
   repeat' split at h
   all_goals (cases h; try rfl)
 
+/-- moving a timer to the ready queue does not start the action -/
+theorem collectStep_started (c : Cfg) (s t : St) (l : String) (h : collectStep c s = some (t, l)) :
+    t.started = s.started := by
+  unfold collectStep at h
+  repeat' split at h
+  all_goals (cases h; try rfl)
+
 /-- all configurations of the repaired code -/
 def fixedCfgs : List Cfg :=
   [Flavour.plain, .ts].flatMap fun f => [Kind.soon, .rel].flatMap fun k =>
@@ -57,7 +64,7 @@ theorem mem_fixedCfgs (c : Cfg) (h : c.test = .fixed) : c ∈ fixedCfgs := by
   cases f <;> cases k <;> cases m <;> decide
 
 /-- The kernel computes the reachable set of every repaired configuration, checks that it is closed under
-all four actions and that every state in it is safe (no late start, no early start). -/
+all five actions and that every state in it is safe (no late start, no early start). -/
 theorem fixed_reach_ok : fixedCfgs.all (fun c => Closed c (reach c) && (reach c).all safe) = true := by decide
 
 theorem fixed_safe (c : Cfg) (h : c.test = .fixed) (sch : List Nat) : safe (run c (init c) sch) = true := by
